@@ -309,6 +309,8 @@ pub struct DetOut {
     pub listing: Option<Vec<u32>>,
     pub listing_panic: bool,
     pub ids_allocated: u32,
+    /// id of the first lifecycle allocated by this run (ids are consecutive within a run)
+    pub first_id: u32,
 }
 
 pub struct DetOpts {
@@ -453,6 +455,7 @@ pub fn run_detector(msgs: Vec<DltMessage>, opts: &DetOpts, lcs: Option<(LcR, LcW
     }
     let id_after = probe_next_id();
     res.ids_allocated = id_after.wrapping_sub(id_before).wrapping_sub(1);
+    res.first_id = id_before.wrapping_add(1);
     res.out = out.into_inner();
     res.vis_same = vis_same.into_inner();
     res.vis_cross = vis_cross.into_inner();
